@@ -653,7 +653,27 @@ impl<'a> Gen<'a> {
             // the invitee uses the invitation, leaves, and tries again (one admission only)
             if let Some(u) = self.m.users.get(&words[1]).cloned() {
                 let ch = words[2].clone();
-                if !self.exclude.contains(&u.conn) {
+                if !self.exclude.contains(&u.conn) && self.r.chance(1, 4) {
+                    // the channel vanishes before the invitation is used: everybody leaves, the invitee's JOIN creates it
+                    // afresh (and uses the invitation up all the same); later it is made invite-only, the invitee
+                    // leaves and tries again
+                    let members: Vec<String> = self.m.chans.get(&ch).map(|c| c.members.keys().cloned().collect()).unwrap_or_default();
+                    if members.len() <= 2 && !self.m.chans.get(&ch).map_or(false, |c| c.preconfigured) {
+                        for m in &members {
+                            if let Some(mu) = self.m.users.get(m).cloned() {
+                                if !self.exclude.contains(&mu.conn) {
+                                    n += self.say(mu.conn, &format!("PART {}", ch)) as usize;
+                                }
+                            }
+                        }
+                        n += self.say(u.conn, &format!("JOIN {}", ch)) as usize;
+                        let o = other(self, Some(u.conn));
+                        n += self.say(o, &format!("JOIN {}", ch)) as usize;
+                        n += self.say(u.conn, &format!("MODE {} +i", ch)) as usize;
+                        n += self.say(u.conn, &format!("PART {}", ch)) as usize;
+                        n += self.say(u.conn, &format!("JOIN {}", ch)) as usize;
+                    }
+                } else if !self.exclude.contains(&u.conn) {
                     n += self.say(u.conn, &format!("JOIN {}", ch)) as usize;
                     if self.r.chance(1, 2) {
                         n += self.say(u.conn, &format!("PART {}", ch)) as usize;
